@@ -1,1 +1,1056 @@
-(* placeholder: proofs are delivered into this file *)
+(* Proofs for the file-level security properties C05, C06, C11, C12, C13, C18.
+   Statements are those of Properties_C05/C06/C11/C12/C13/C18.v (each theorem there is closed by
+   [exact <name>_proof]).  From the sibling proof files only C01_roundtrip_proof (FileProofsDec) is
+   used; the layout of the encrypted file is read off the model (enc_writes) directly. *)
+(* FileProofsDec is imported first so that the names of the libraries below take precedence *)
+From Wencry Require Import FileProofsDec.
+From Coq Require Import NArith List Bool Arith Lia PeanoNat.
+From Wencry Require Import Bytes AesSpec AesModel ModesSpec ModesModel HashSpec HashModel HashProofs HmacProofs ModesProofs
+  FileModel FileSpec FileProps.
+From Wencry.Gen Require Import HashConst.
+From Wencry.Gen Require Layout.
+Import ListNotations.
+Local Open Scope N_scope.
+
+(* ------------------------------------------------------------------------------------ *)
+(** * 0. hmac::getres = RFC 2104 HMAC for EVERY stream length (the 64-bit counter of the
+      model and the 64-bit length field of the standard wrap in the same way)            *)
+(* ------------------------------------------------------------------------------------ *)
+
+Lemma shr_mod64 x k : k + 8 <= 64 -> N.shiftr (x mod 2 ^ 64) k mod 256 = N.shiftr x k mod 256.
+Proof.
+  intro Hk. change 256 with (2 ^ 8). apply N.bits_inj. intro n.
+  destruct (N.lt_ge_cases n 8) as [Hn|Hn].
+  - rewrite !N.mod_pow2_bits_low by exact Hn. rewrite !N.shiftr_spec'.
+    apply N.mod_pow2_bits_low. lia.
+  - rewrite !N.mod_pow2_bits_high by exact Hn. reflexivity.
+Qed.
+
+Lemma be64_mod64 x : be64_bytes (x mod 2 ^ 64) = be64_bytes x.
+Proof. unfold be64_bytes. cbn [map]. repeat (apply (f_equal2 cons); [apply shr_mod64; lia|]). reflexivity. Qed.
+Lemma le64_mod64 x : le64_bytes (x mod 2 ^ 64) = le64_bytes x.
+Proof. unfold le64_bytes. cbn [map]. repeat (apply (f_equal2 cons); [apply shr_mod64; lia|]). reflexivity. Qed.
+Lemma lenb_mod64 a x : lenb a (x mod 2 ^ 64) = lenb a x.
+Proof. unfold lenb. destruct (_ =? _); [apply be64_mod64|apply le64_mod64]. Qed.
+
+Lemma addtotal_total_mod st len X :
+  len <= 64 -> hs_total st = X mod 2 ^ 64 ->
+  hs_total (addtotal st len) = (X + 8 * len) mod 2 ^ 64.
+Proof.
+  intros Hl Hs. unfold addtotal. cbn [hs_total]. rewrite Hs.
+  rewrite (N.mod_small (len * 8) w32) by (unfold w32; lia).
+  change (2 ^ totalsize_bits) with (2 ^ 64).
+  rewrite N.add_mod_idemp_l by discriminate. f_equal. lia.
+Qed.
+
+Lemma getHash_block_total_mod a st blk X :
+  hs_total st = X mod 2 ^ 64 -> hs_total (getHash_block a st blk) = (X + 512) mod 2 ^ 64.
+Proof.
+  intro Hs. unfold getHash_block.
+  rewrite (addtotal_total_mod _ 64 X); [reflexivity|lia|exact Hs].
+Qed.
+
+Lemma getHash_final_h_gen a st s n :
+  wf_final a -> (length s < 64)%nat ->
+  hs_total st = (8 * N.of_nat n) mod 2 ^ 64 -> (n mod 64 = 0)%nat ->
+  hs_h (getHash_final a st s) =
+  fold_left (ha_compress a) (chunks 64 (spec_tail a n s)) (hs_h st).
+Proof.
+  intros [Hthr Hpos] Hlen Htot Hn.
+  unfold getHash_final. cbv zeta. rewrite Hthr, Hpos.
+  change (N.to_nat 56) with 56%nat.
+  set (fl := length s) in *.
+  set (st1 := addtotal st (N.of_nat fl)).
+  assert (Ht1 : hs_total st1 = (8 * N.of_nat (n + fl)) mod 2 ^ 64).
+  { unfold st1. rewrite (addtotal_total_mod _ _ (8 * N.of_nat n)); [f_equal; lia|lia|exact Htot]. }
+  assert (Hh1 : hs_h st1 = hs_h st) by reflexivity.
+  fold (lenb a (hs_total st1)). rewrite Ht1, lenb_mod64.
+  unfold spec_tail, tail_of. fold fl.
+  destruct (Nat.leb_spec 56 fl) as [Hge|Hlt].
+  - rewrite getHash_block_h, getHash_block_h, Hh1.
+    rewrite pad_zeros_ge56 by (try assumption; lia).
+    replace (119 - fl)%nat with ((63 - fl) + 56)%nat by lia.
+    rewrite zeros_app.
+    change (firstn 56 (zeros 64)) with (zeros 56).
+    set (L := lenb a _).
+    replace (s ++ [128] ++ (zeros (63 - fl) ++ zeros 56) ++ L)
+      with ((s ++ [128] ++ zeros (63 - fl)) ++ ((zeros 56 ++ L) ++ []))
+      by (rewrite app_nil_r, <- !app_assoc; reflexivity).
+    assert (Hl1 : length (s ++ [128] ++ zeros (63 - fl)) = 64%nat).
+    { rewrite !app_length, zeros_length. cbn [length]. fold fl. lia. }
+    assert (Hl2 : length (zeros 56 ++ L) = 64%nat).
+    { rewrite app_length, zeros_length. unfold L. rewrite lenb_length. reflexivity. }
+    rewrite chunks_app_exact by (try exact Hl1; lia).
+    rewrite chunks_app_exact by (try exact Hl2; lia).
+    reflexivity.
+  - rewrite getHash_block_h, Hh1.
+    rewrite pad_zeros_lt56 by assumption.
+    set (L := lenb a _).
+    replace (63 - fl)%nat with ((55 - fl) + 8)%nat by lia.
+    rewrite zeros_app.
+    assert (Hl1 : length (s ++ [128] ++ zeros (55 - fl)) = 56%nat).
+    { rewrite !app_length, zeros_length. cbn [length]. fold fl. lia. }
+    replace (s ++ [128] ++ zeros (55 - fl) ++ zeros 8)
+      with ((s ++ [128] ++ zeros (55 - fl)) ++ zeros 8)
+      by (rewrite <- !app_assoc; reflexivity).
+    rewrite firstn_app_exact by exact Hl1.
+    replace (s ++ [128] ++ zeros (55 - fl) ++ L) with ((s ++ [128] ++ zeros (55 - fl)) ++ L)
+      by (rewrite <- !app_assoc; reflexivity).
+    rewrite chunks_single; [reflexivity|lia|].
+    rewrite app_length, Hl1. unfold L. rewrite lenb_length. reflexivity.
+Qed.
+
+Lemma string_loop_spec_gen a : wf_final a -> forall fuel st s n,
+  (length s / 64 < fuel)%nat ->
+  hs_total st = (8 * N.of_nat n) mod 2 ^ 64 -> (n mod 64 = 0)%nat ->
+  hs_h (string_loop a fuel st s) =
+  fold_left (ha_compress a) (chunks 64 (spec_tail a n s)) (hs_h st).
+Proof.
+  intro Hwf. induction fuel as [|f IH]; intros st s n Hfuel Htot Hn; [lia|].
+  cbn [string_loop]. destruct (Nat.leb_spec 64 (length s)) as [Hge|Hlt].
+  - assert (Hsk : length (skipn 64 s) = (length s - 64)%nat) by apply skipn_length.
+    assert (Hfi : length (firstn 64 s) = 64%nat) by (apply firstn_length_le; exact Hge).
+    rewrite (IH _ _ (n + 64)%nat).
+    + rewrite getHash_block_h. unfold spec_tail.
+      replace (n + 64 + length (skipn 64 s))%nat with (n + length s)%nat by lia.
+      set (T := tail_of a _).
+      assert (E : s ++ T = firstn 64 s ++ (skipn 64 s ++ T))
+        by (rewrite app_assoc, firstn_skipn; reflexivity).
+      rewrite E, (chunks_app_exact 64 (firstn 64 s)) by (try exact Hfi; lia). reflexivity.
+    + rewrite Hsk.
+      assert (E : (length s = 64 + (length s - 64))%nat) by lia.
+      rewrite E in Hfuel.
+      replace (64 + (length s - 64))%nat with ((length s - 64) + 1 * 64)%nat in Hfuel by lia.
+      rewrite Nat.div_add in Hfuel by discriminate. lia.
+    + rewrite (getHash_block_total_mod _ _ _ _ Htot). f_equal. lia.
+    + replace (n + 64)%nat with (n + 1 * 64)%nat by lia.
+      rewrite Nat.mod_add by discriminate. exact Hn.
+  - apply getHash_final_h_gen; assumption.
+Qed.
+
+Lemma string_std_gen alg a m : get_hasher alg = Some a -> getStringHash a m = hash_spec alg m.
+Proof.
+  intro H. rewrite <- (fold_std alg a m H). unfold getStringHash. f_equal.
+  rewrite pad_with_spec_tail.
+  apply (string_loop_spec_gen a (get_hasher_wf _ _ H) _ (reset a) m 0%nat); [lia|reflexivity|reflexivity].
+Qed.
+
+Lemma file_std_gen hbuf alg a pre m :
+  (1 <= hbuf)%nat -> get_hasher alg = Some a ->
+  match pre with None => True | Some p => length p = 64%nat end ->
+  getFileHash hbuf a pre m = Some (hash_spec alg (pre_bytes pre ++ m)).
+Proof.
+  intros Hh H Hp. rewrite getFileHash_string by assumption. f_equal.
+  rewrite <- (fold_std alg a _ H). f_equal.
+  rewrite pad_with_spec_tail.
+  assert (Hl : (length (pre_bytes pre ++ m) <= 64 + length m)%nat).
+  { rewrite app_length. destruct pre as [p|]; cbn [pre_bytes length]; lia. }
+  apply (string_loop_spec_gen a (get_hasher_wf _ _ H) _ (reset a) _ 0%nat);
+    [|reflexivity|reflexivity].
+  pose proof (div64_bounds (length (pre_bytes pre ++ m))).
+  pose proof (div64_bounds (length m)). nia.
+Qed.
+
+(* the model's tag is the RFC 2104 HMAC, with no bound on the stream and no byte-range hypothesis *)
+Lemma hmac_model_is_spec hbuf hm key msg :
+  (1 <= hbuf)%nat -> hm <= 2 -> length key = 16%nat ->
+  hmac_model hbuf hm key msg = Some (hmac_spec (hash_spec hm) key msg).
+Proof.
+  intros Hh Hhm Hk.
+  destruct (get_hasher_le2 hm Hhm) as [a Ha].
+  unfold hmac_model. rewrite Ha.
+  rewrite (firstn_all2 key) by lia.
+  set (key1 := key ++ zeros 48).
+  assert (Hk1 : length key1 = 64%nat).
+  { unfold key1. rewrite app_length, zeros_length, Hk. reflexivity. }
+  rewrite ipad_eq, opad_eq.
+  set (h1 := map (fun x => N.lxor x 54) key1).
+  assert (Hh1 : length h1 = 64%nat) by (unfold h1; rewrite map_length; exact Hk1).
+  rewrite (file_std_gen hbuf hm a (Some h1) msg Hh Ha Hh1).
+  cbn [pre_bytes].
+  rewrite (string_std_gen hm a _ Ha).
+  f_equal. unfold hmac_spec. cbv zeta. rewrite Hk.
+  change (64 <? 16)%nat with false. cbv iota. rewrite Hk. change (64 - 16)%nat with 48%nat.
+  fold key1. unfold h1.
+  rewrite (map_ext (fun x => N.lxor x 92) (N.lxor 92)) by (intro; apply N.lxor_comm).
+  rewrite (map_ext (fun x => N.lxor x 54) (N.lxor 54)) by (intro; apply N.lxor_comm).
+  reflexivity.
+Qed.
+
+(* totality: for hm <= 2 the tag computation always returns, whatever the key (even a short one) *)
+Lemma hmac_model_total hbuf hm key msg :
+  (1 <= hbuf)%nat -> hm <= 2 -> exists t, hmac_model hbuf hm key msg = Some t.
+Proof.
+  intros Hh Hhm. destruct (get_hasher_le2 hm Hhm) as [a Ha].
+  unfold hmac_model. rewrite Ha.
+  set (h1 := map _ _).
+  assert (Hle : (length h1 <= 64)%nat).
+  { unfold h1. rewrite map_length, app_length, zeros_length, firstn_length. lia. }
+  destruct (Nat.eq_dec (length h1) 64) as [E|E].
+  - rewrite (file_std_gen hbuf hm a (Some h1) msg Hh Ha E). eexists. reflexivity.
+  - unfold getFileHash, fb_new. cbn [option_map].
+    replace (length msg / 64 + 3)%nat with (S (length msg / 64 + 2)) by lia.
+    cbn [file_loop]. rewrite fb_read_extra.
+    assert (E2 : (length (firstn 64 h1) =? 64)%nat = false).
+    { apply Nat.eqb_neq. rewrite firstn_length. lia. }
+    rewrite E2. cbn [option_map]. eexists. reflexivity.
+Qed.
+
+(* ------------------------------------------------------------------------------------ *)
+(** * 1. Decision logic of verify / ver / dec                                              *)
+(* ------------------------------------------------------------------------------------ *)
+
+Lemma hmac_mark_eq : hmac_mark = 10%nat. Proof. reflexivity. Qed.
+Lemma iv_mark_eq : iv_mark = 48%nat. Proof. reflexivity. Qed.
+Lemma text_mark_eq T : text_mark T = (48 + 20 * T)%nat. Proof. reflexivity. Qed.
+Lemma magic_bytes_eq : magic_bytes = spec_magic. Proof. vm_compute. reflexivity. Qed.
+
+Lemma C05_success_requires_valid_tag_proof : forall c hbuf T F' key out,
+  dec c hbuf T F' key = Ok out -> verify hbuf F' key = Ok 0.
+Proof.
+  intros c hbuf T F' key out H. unfold dec in H.
+  destruct (verify hbuf F' key) as [code| | |]; try discriminate H.
+  destruct code as [|p]; [reflexivity|discriminate H].
+Qed.
+
+Lemma C06_rejected_means_no_output_proof : forall c hbuf T F key code,
+  verify hbuf F key = Ok code -> code <> 0 ->
+  dec c hbuf T F key = Fail code /\ ver hbuf F key = Ok false.
+Proof.
+  intros c hbuf T F key code H Hc. unfold dec, ver. rewrite H.
+  destruct code as [|p]; [contradiction Hc; reflexivity|]. split; reflexivity.
+Qed.
+
+Lemma ver_true_iff hbuf F key : ver hbuf F key = Ok true <-> verify hbuf F key = Ok 0.
+Proof.
+  unfold ver. destruct (verify hbuf F key) as [code| | |]; split; intro H; try discriminate H.
+  - destruct code as [|p]; [reflexivity|discriminate H].
+  - injection H as ->. reflexivity.
+Qed.
+
+Lemma C12_decrypt_accepts_only_what_verify_accepts_proof : forall c hbuf T F key,
+  (forall out, dec c hbuf T F key = Ok out -> ver hbuf F key = Ok true) /\
+  (ver hbuf F key = Ok false -> exists code, dec c hbuf T F key = Fail code).
+Proof.
+  intros c hbuf T F key. split.
+  - intros out H. apply ver_true_iff. exact (C05_success_requires_valid_tag_proof _ _ _ _ _ _ H).
+  - intro H. unfold ver in H. unfold dec.
+    destruct (verify hbuf F key) as [code| | |]; try discriminate H.
+    destruct code as [|p]; [discriminate H|]. eexists. reflexivity.
+Qed.
+
+Lemma C06_all_key_bytes_enter_the_mac_proof : forall key key',
+  block16 key -> block16 key' -> key <> key' ->
+  map (N.lxor 54) (key ++ zeros 48) <> map (N.lxor 54) (key' ++ zeros 48) /\
+  map (N.lxor 92) (key ++ zeros 48) <> map (N.lxor 92) (key' ++ zeros 48).
+Proof.
+  intros key key' _ _ Hne.
+  assert (Inj : forall c a b, map (N.lxor c) a = map (N.lxor c) b -> a = b).
+  { intros c. induction a as [|x a IH]; intros [|y b] H; try reflexivity; try discriminate H.
+    cbn [map] in H. injection H as Hx Hr. f_equal; [|apply IH; exact Hr].
+    rewrite <- (N.lxor_0_l x), <- (N.lxor_nilpotent c), N.lxor_assoc, Hx, <- N.lxor_assoc,
+      N.lxor_nilpotent, N.lxor_0_l. reflexivity. }
+  split; intro H; apply Inj in H; apply app_inv_tail in H; exact (Hne H).
+Qed.
+
+Example C06_all_key_bytes_nonvacuous :
+  block16 (repeat 1 16) /\ block16 (repeat 1 15 ++ [2]) /\ repeat 1 16 <> repeat 1 15 ++ [2].
+Proof. repeat split. intro H. discriminate H. Qed.
+
+(* verify accepts exactly: >= 74 bytes, magic, mode numbers in range, tag field = computed tag *)
+Lemma verify_ok0 hbuf F key :
+  verify hbuf F key = Ok 0 <->
+  (74 <= length F)%nat /\ firstn 8 F = magic_bytes /\ nth 8 F 0 <= 4 /\ nth 9 F 0 <= 2 /\
+  exists t, hmac_model hbuf (nth 9 F 0) key (skipn 48 F) = Some t /\
+            firstn (length t) (firstn 64 (skipn 10 F)) = t.
+Proof.
+  unfold verify. rewrite hmac_mark_eq, iv_mark_eq. change (10 + 64)%nat with 74%nat.
+  destruct (Nat.ltb_spec (length F) 8) as [H8|H8].
+  { split; [discriminate|]. intros [H _]. lia. }
+  destruct (list_eqb (firstn 8 F) magic_bytes) eqn:Hm; cbn [negb].
+  2:{ split; [discriminate|]. intros [_ [H _]]. apply list_eqb_eq in H. congruence. }
+  apply list_eqb_eq in Hm.
+  destruct (Nat.ltb_spec (length F) 74) as [H74|H74].
+  { split; [discriminate|]. intros [H _]. lia. }
+  destruct (N.ltb_spec 4 (nth 8 F 0)) as [Hc|Hc]; cbn [orb].
+  { split; [discriminate|]. intros [_ [_ [H _]]]. lia. }
+  destruct (N.ltb_spec 2 (nth 9 F 0)) as [Hh|Hh].
+  { split; [discriminate|]. intros [_ [_ [_ [H _]]]]. lia. }
+  destruct (hmac_model hbuf (nth 9 F 0) key (skipn 48 F)) as [t|].
+  2:{ split; [discriminate|]. intros [_ [_ [_ [_ [t [H _]]]]]]. discriminate H. }
+  destruct (cmphmac t (firstn 64 (skipn 10 F))) eqn:Hcmp.
+  - apply C08_compare_all_bytes_proof in Hcmp. split; [|reflexivity]. intros _.
+    repeat (split; [assumption|]). exists t. split; [reflexivity|exact Hcmp].
+  - split; [discriminate|]. intros [_ [_ [_ [_ [t' [Ht Hf]]]]]]. injection Ht as <-.
+    apply C08_compare_all_bytes_proof in Hf. congruence.
+Qed.
+
+(* ------------------------------------------------------------------------------------ *)
+(** * 2. C11: totality of verify and clean failure                                         *)
+(* ------------------------------------------------------------------------------------ *)
+
+Lemma verify_total_gen hbuf F key : (1 <= hbuf)%nat ->
+  exists code, verify hbuf F key = Ok code /\ code <= 4.
+Proof.
+  intro Hh. unfold verify.
+  destruct (length F <? 8)%nat; [exists 4; split; [reflexivity|lia]|].
+  destruct (negb _); [exists 4; split; [reflexivity|lia]|].
+  destruct (length F <? hmac_mark + 64)%nat; [exists 1; split; [reflexivity|lia]|].
+  destruct (N.ltb_spec 4 (nth 8 F 0)) as [Hc|Hc]; cbn [orb]; [exists 3; split; [reflexivity|lia]|].
+  destruct (N.ltb_spec 2 (nth 9 F 0)) as [Hm|Hm]; [exists 3; split; [reflexivity|lia]|].
+  destruct (hmac_model_total hbuf (nth 9 F 0) key (skipn iv_mark F) Hh Hm) as [t ->].
+  destruct (cmphmac _ _); [exists 0|exists 2]; (split; [reflexivity|lia]).
+Qed.
+
+Lemma C11_verify_total_proof : forall hbuf F key,
+  (1 <= hbuf)%nat -> N.of_nat (length F) < 2 ^ 56 ->
+  exists code, verify hbuf F key = Ok code /\ code <= 4.
+Proof. intros hbuf F key Hh _. apply verify_total_gen, Hh. Qed.
+
+Example C11_verify_total_nonvacuous : (1 <= 1)%nat /\ N.of_nat (length [1; 2; 3]) < 2 ^ 56.
+Proof. split; [apply le_n|reflexivity]. Qed.
+
+Lemma C11_unauthentic_input_fails_cleanly_proof : forall c hbuf T F key,
+  (1 <= hbuf)%nat -> N.of_nat (length F) < 2 ^ 56 ->
+  verify hbuf F key <> Ok 0 ->
+  exists code, 1 <= code <= 4 /\ dec c hbuf T F key = Fail code /\ ver hbuf F key = Ok false.
+Proof.
+  intros c hbuf T F key Hh _ Hne.
+  destruct (verify_total_gen hbuf F key Hh) as [code [Hv Hc]].
+  assert (Hc0 : code <> 0) by (intros ->; exact (Hne Hv)).
+  exists code. split; [lia|]. exact (C06_rejected_means_no_output_proof c hbuf T F key code Hv Hc0).
+Qed.
+
+Example C11_unauthentic_nonvacuous :
+  (1 <= 1)%nat /\ N.of_nat (length [1; 2; 3]) < 2 ^ 56 /\ verify 1 [1; 2; 3] [] <> Ok 0.
+Proof. split; [apply le_n|]. split; [reflexivity|]. vm_compute. discriminate. Qed.
+
+Lemma C11_structural_rejections_proof : forall hbuf F key,
+  ((length F < 8)%nat -> verify hbuf F key = Ok 4) /\
+  ((8 <= length F < 74)%nat -> verify hbuf F key = Ok 4 \/ verify hbuf F key = Ok 1) /\
+  ((74 <= length F)%nat -> firstn 8 F = magic_bytes -> (4 < nth 8 F 0 \/ 2 < nth 9 F 0) -> verify hbuf F key = Ok 3).
+Proof.
+  intros hbuf F key. unfold verify. rewrite hmac_mark_eq. change (10 + 64)%nat with 74%nat.
+  split; [|split].
+  - intro H. destruct (Nat.ltb_spec (length F) 8); [reflexivity|lia].
+  - intro H. destruct (Nat.ltb_spec (length F) 8); [lia|].
+    destruct (negb _); [left; reflexivity|].
+    destruct (Nat.ltb_spec (length F) 74); [right; reflexivity|lia].
+  - intros H Hm Hr. destruct (Nat.ltb_spec (length F) 8); [lia|].
+    rewrite (proj2 (list_eqb_eq _ _) Hm). cbn [negb].
+    destruct (Nat.ltb_spec (length F) 74); [lia|].
+    destruct (N.ltb_spec 4 (nth 8 F 0)); cbn [orb]; [reflexivity|].
+    destruct (N.ltb_spec 2 (nth 9 F 0)); [reflexivity|lia].
+Qed.
+
+(* ------------------------------------------------------------------------------------ *)
+(** * 3. The two computed counterexamples (K1: mode byte not authenticated, K2: shared IV) *)
+(* ------------------------------------------------------------------------------------ *)
+
+Definition wit_key : list N := map N.of_nat (seq 1 16).
+Definition wit_P : list N := map N.of_nat (seq 0 150).
+Definition wit_seed : list N := [1; 2; 3].
+Definition ok_or_nil (r : result (list N)) : list N := match r with Ok x => x | _ => [] end.
+
+(* K1: c = 16, T = 1, CBC, HMAC-MD5; byte 8 changed from 1 (CBC) to 0 (ECB) *)
+Definition wit05_F : list N := ok_or_nil (enc 16 1 1 wit_P wit_key 1 1 wit_seed).
+Definition wit05_F' : list N := firstn 8 wit05_F ++ [0] ++ skipn 9 wit05_F.
+Definition wit05_P' : list N := ok_or_nil (dec 16 1 1 wit05_F' wit_key).
+
+Lemma nth_agree_sweep (F F' : list N) (n k : nat) :
+  length F = n -> length F' = n ->
+  forallb (fun i => (i =? k)%nat || (nth i F 0 =? nth i F' 0)) (seq 0 n) = true ->
+  forall i, (i < k \/ S k <= i)%nat -> nth i F 0 = nth i F' 0.
+Proof.
+  intros HF HF' Hall i Hi.
+  destruct (Nat.lt_ge_cases i n) as [Hlt|Hge].
+  - rewrite forallb_forall in Hall. specialize (Hall i).
+    assert (Hin : In i (seq 0 n)) by (apply in_seq; lia).
+    apply Hall in Hin. apply orb_true_iff in Hin. destruct Hin as [Hk|He].
+    + apply Nat.eqb_eq in Hk. lia.
+    + apply N.eqb_eq in He. exact He.
+  - rewrite !nth_overflow by lia. reflexivity.
+Qed.
+
+Lemma wit05_ep : enc_params 16 1 1 wit_P wit_key wit_seed 1 1.
+Proof.
+  constructor; try (vm_compute; reflexivity); try lia; try (vm_compute; discriminate).
+  split; vm_compute; reflexivity.
+Qed.
+Lemma wit05_enc : enc 16 1 1 wit_P wit_key 1 1 wit_seed = Ok wit05_F.
+Proof. vm_compute. reflexivity. Qed.
+Lemma wit05_dec : dec 16 1 1 wit05_F' wit_key = Ok wit05_P'.
+Proof. vm_compute. reflexivity. Qed.
+Lemma wit05_ne : wit05_P' <> wit_P.
+Proof. intro H. apply (f_equal (@length N)) in H. vm_compute in H. discriminate H. Qed.
+
+Lemma C05_mode_byte_refuted_proof : exists c hbuf T P key seed cm hm F F' P',
+  enc_params c hbuf T P key seed cm hm /\
+  enc c hbuf T P key cm hm seed = Ok F /\
+  same_outside 8 9 F F' /\ F' <> F /\
+  dec c hbuf T F' key = Ok P' /\ P' <> P.
+Proof.
+  exists 16%nat, 1%nat, 1%nat, wit_P, wit_key, wit_seed, 1, 1, wit05_F, wit05_F', wit05_P'.
+  split; [exact wit05_ep|]. split; [exact wit05_enc|]. split; [|split; [|split; [exact wit05_dec|exact wit05_ne]]].
+  - split; [vm_compute; reflexivity|].
+    apply (nth_agree_sweep wit05_F wit05_F' 228 8); vm_compute; reflexivity.
+  - intro H. apply (f_equal (fun l => nth 8 l 0)) in H. vm_compute in H. discriminate H.
+Qed.
+
+(* instances of the hypotheses of the decision-logic lemmas above *)
+Example C05_success_nonvacuous : exists out, dec 16 1 1 wit05_F' wit_key = Ok out.
+Proof. eexists. exact wit05_dec. Qed.
+Example C06_rejected_nonvacuous : verify 1 [1; 2; 3] wit_key = Ok 4 /\ 4 <> 0.
+Proof. split; [vm_compute; reflexivity|discriminate]. Qed.
+Example C11_structural_nonvacuous :
+  let F := magic_bytes ++ [5; 0] ++ zeros 64 in
+  (74 <= length F)%nat /\ firstn 8 F = magic_bytes /\ (4 < nth 8 F 0 \/ 2 < nth 9 F 0) /\ verify 1 F [] = Ok 3.
+Proof. cbv zeta. split; [vm_compute; lia|]. split; [reflexivity|]. split; [left|]; vm_compute; reflexivity. Qed.
+
+(* K2: c = 4 (64-byte chunks), T = 2, CTR, HMAC-MD5 *)
+Definition wit18_F : list N := ok_or_nil (enc 4 1 2 wit_P wit_key 2 1 wit_seed).
+
+Lemma C18_distinct_stream_ivs_refuted_proof : exists c hbuf T P key seed hm F,
+  enc_params c hbuf T P key seed 2 hm /\ (2 <= T)%nat /\
+  enc c hbuf T P key 2 hm seed = Ok F /\
+  let body := skipn (text_mark T) F in
+  xorb_bytes (firstn (16 * c) body) (firstn (16 * c) (skipn (16 * c) body)) =
+  xorb_bytes (firstn (16 * c) P) (firstn (16 * c) (skipn (16 * c) P)) /\
+  firstn (16 * c) P <> firstn (16 * c) (skipn (16 * c) P).
+Proof.
+  exists 4%nat, 1%nat, 2%nat, wit_P, wit_key, wit_seed, 1, wit18_F.
+  split; [|split; [|split]].
+  - constructor; try (vm_compute; reflexivity); try lia; try (vm_compute; discriminate).
+    split; vm_compute; reflexivity.
+  - apply le_n.
+  - vm_compute. reflexivity.
+  - cbv zeta. split.
+    + vm_compute. reflexivity.
+    + intro H. apply (f_equal (fun l => nth 0 l 0)) in H. vm_compute in H. discriminate H.
+Qed.
+
+(* ------------------------------------------------------------------------------------ *)
+(** * 4. Layout of the write sequence and of the encrypted file, read off the model        *)
+(* ------------------------------------------------------------------------------------ *)
+
+Lemma hlen_bounds hm : (16 <= hlen hm <= 32)%nat.
+Proof. unfold hlen. destruct hm as [|[p|p|]]; lia. Qed.
+
+Lemma skipn_zeros h n : skipn h (zeros n) = zeros (n - h).
+Proof.
+  unfold zeros. revert n. induction h as [|h IH]; intros [|n]; cbn [skipn repeat Nat.sub]; try reflexivity.
+  apply IH.
+Qed.
+Lemma firstn_zeros h n : (h <= n)%nat -> firstn h (zeros n) = zeros h.
+Proof.
+  unfold zeros. revert n. induction h as [|h IH]; intros [|n] H; cbn [firstn repeat]; try reflexivity; [lia|].
+  f_equal. apply IH. lia.
+Qed.
+Lemma nth_firstn_lt {A} (d : A) : forall i k (l : list A), (i < k)%nat -> nth i (firstn k l) d = nth i l d.
+Proof.
+  induction i as [|i IH]; intros [|k] [|x l] H; cbn [firstn nth]; try reflexivity; try lia.
+  apply IH. lia.
+Qed.
+
+Definition pre10 (cm hm : N) : list N := magic_bytes ++ [cm; hm].
+Lemma pre10_length cm hm : length (pre10 cm hm) = 10%nat. Proof. vm_compute. reflexivity. Qed.
+
+(* a file image with a 10-byte prefix, a 38-byte tag field and the authenticated rest *)
+Lemma view_skip48 (pre fld rest : list N) :
+  length pre = 10%nat -> length fld = 38%nat -> skipn 48 (pre ++ fld ++ rest) = rest.
+Proof.
+  intros Hp Hf. rewrite app_assoc. apply skipn_app_exact. rewrite app_length, Hp, Hf. reflexivity.
+Qed.
+Lemma view_skip10 (pre fld rest : list N) :
+  length pre = 10%nat -> skipn 10 (pre ++ fld ++ rest) = fld ++ rest.
+Proof. intros Hp. apply skipn_app_exact, Hp. Qed.
+Lemma view_length (pre fld rest : list N) :
+  length pre = 10%nat -> length fld = 38%nat -> length (pre ++ fld ++ rest) = (48 + length rest)%nat.
+Proof. intros Hp Hf. rewrite !app_length, Hp, Hf. lia. Qed.
+Lemma view_nth9 cm hm X : nth 9 (pre10 cm hm ++ X) 0 = hm.
+Proof. vm_compute. reflexivity. Qed.
+Lemma view_nth8 cm hm X : nth 8 (pre10 cm hm ++ X) 0 = cm.
+Proof. vm_compute. reflexivity. Qed.
+Lemma view_magic cm hm X : firstn 8 (pre10 cm hm ++ X) = magic_bytes.
+Proof. vm_compute. reflexivity. Qed.
+
+Lemma patch_layout (pre tag rest : list N) :
+  length pre = 10%nat -> (length tag <= 38)%nat ->
+  patch (pre ++ zeros 38 ++ rest) 10 tag = pre ++ tag ++ zeros (38 - length tag) ++ rest.
+Proof.
+  intros Hp Ht. unfold patch.
+  replace (10 - length (pre ++ zeros 38 ++ rest))%nat with 0%nat
+    by (rewrite app_length, Hp; lia).
+  change (zeros 0) with (@nil N). rewrite app_nil_r.
+  rewrite (firstn_app_exact pre _ 10 Hp).
+  rewrite (Nat.add_comm 10), skipn_add, (skipn_app_exact pre _ 10 Hp).
+  rewrite skipn_app_ge by (rewrite zeros_length; exact Ht).
+  rewrite skipn_zeros. reflexivity.
+Qed.
+
+Lemma firstn_layout (pre rest : list N) k :
+  length pre = 10%nat -> (48 <= k)%nat ->
+  firstn k (pre ++ zeros 38 ++ rest) = pre ++ zeros 38 ++ firstn (k - 48) rest.
+Proof.
+  intros Hp Hk. rewrite firstn_app, (firstn_all2 pre) by lia. f_equal.
+  rewrite firstn_app, (firstn_all2 (zeros 38)) by (rewrite zeros_length; lia). f_equal.
+  rewrite zeros_length, Hp. f_equal. lia.
+Qed.
+
+Lemma enc_writes_shape c hbuf T P key cm hm seed ws :
+  enc_writes c hbuf T P key cm hm seed = Ok ws ->
+  exists rest tag, ws = [(0%nat, pre10 cm hm ++ zeros 38 ++ rest); (10%nat, tag)] /\
+    hmac_model hbuf hm key rest = Some tag /\
+    exists body, rest = firstn (20 * T) (iv_chain seed T) ++ body.
+Proof.
+  unfold enc_writes, file_header. cbv zeta.
+  destruct (create true cm) as [kind|]; [|discriminate].
+  destruct (pipe_seq _ _ _ _ _ _ _ _) as [body| | |]; try discriminate.
+  set (ivs := firstn (20 * T) (iv_chain seed T)).
+  change (N.to_nat Layout.PADDING) with 38%nat. rewrite iv_mark_eq, hmac_mark_eq.
+  assert (E : (magic_bytes ++ [cm; hm] ++ zeros 38 ++ ivs) ++ body = pre10 cm hm ++ zeros 38 ++ ivs ++ body).
+  { unfold pre10. rewrite <- !app_assoc. reflexivity. }
+  rewrite E. rewrite view_skip48 by (try apply pre10_length; apply zeros_length).
+  destruct (hmac_model hbuf hm key (ivs ++ body)) as [tag|] eqn:Hm; [|discriminate].
+  intro H. injection H as <-. exists (ivs ++ body), tag. split; [reflexivity|]. split; [exact Hm|].
+  exists body. reflexivity.
+Qed.
+
+Lemma enc_inv c hbuf T P key cm hm seed F :
+  enc c hbuf T P key cm hm seed = Ok F ->
+  exists ws, enc_writes c hbuf T P key cm hm seed = Ok ws /\ F = apply_writes ws.
+Proof.
+  unfold enc. destruct (enc_writes c hbuf T P key cm hm seed) as [ws| | |]; try discriminate.
+  intro H. injection H as <-. exists ws. split; reflexivity.
+Qed.
+
+Lemma patch_nil (s : list N) : patch [] 0 s = s.
+Proof.
+  unfold patch. cbn [length Nat.sub zeros repeat app firstn Nat.add].
+  rewrite skipn_nil. apply app_nil_r.
+Qed.
+
+(* the encrypted file, from the model alone *)
+Lemma enc_shape c hbuf T P key seed cm hm F :
+  (1 <= hbuf)%nat -> hm <= 2 -> length key = 16%nat ->
+  enc c hbuf T P key cm hm seed = Ok F ->
+  exists rest tag,
+    tag = hmac_spec (hash_spec hm) key rest /\ length tag = hlen hm /\
+    enc_writes c hbuf T P key cm hm seed = Ok [(0%nat, pre10 cm hm ++ zeros 38 ++ rest); (10%nat, tag)] /\
+    F = pre10 cm hm ++ tag ++ zeros (38 - hlen hm) ++ rest /\
+    exists body, rest = firstn (20 * T) (iv_chain seed T) ++ body.
+Proof.
+  intros Hh Hhm Hk H. destruct (enc_inv _ _ _ _ _ _ _ _ _ H) as [ws [Hws ->]].
+  destruct (enc_writes_shape _ _ _ _ _ _ _ _ _ Hws) as [rest [tag [-> [Hm Hb]]]].
+  exists rest, tag.
+  assert (Hl : length tag = hlen hm) by exact (C08_tag_length_proof _ _ _ _ _ Hm).
+  rewrite (hmac_model_is_spec hbuf hm key rest Hh Hhm Hk) in Hm. injection Hm as Hm.
+  split; [symmetry; exact Hm|]. split; [exact Hl|]. split; [exact Hws|]. split; [|exact Hb].
+  unfold apply_writes. cbn [fold_left fst snd]. rewrite patch_nil.
+  pose proof (hlen_bounds hm) as Hb2.
+  rewrite patch_layout by (try apply pre10_length; lia). rewrite Hl. reflexivity.
+Qed.
+
+(* ------------------------------------------------------------------------------------ *)
+(** * 5. C13: crash states                                                                 *)
+(* ------------------------------------------------------------------------------------ *)
+
+(* a prefix state that still lies inside the sequential stream and verifies has a zero HMAC *)
+Lemma prefix_state_verifies hbuf key cm hm rest k :
+  (1 <= hbuf)%nat -> hm <= 2 -> length key = 16%nat -> (48 <= k)%nat ->
+  verify hbuf (firstn k (pre10 cm hm ++ zeros 38 ++ rest)) key = Ok 0 ->
+  hmac_spec (hash_spec hm) key (skipn 48 (firstn k (pre10 cm hm ++ zeros 38 ++ rest))) = zeros (hlen hm).
+Proof.
+  intros Hh Hhm Hk Hk48 Hv.
+  rewrite firstn_layout in * by (try apply pre10_length; exact Hk48).
+  set (r := firstn (k - 48) rest) in *.
+  apply verify_ok0 in Hv. destruct Hv as [_ [_ [_ [_ [t [Ht Hf]]]]]].
+  rewrite view_nth9 in Ht.
+  rewrite view_skip48 in * by (try apply pre10_length; apply zeros_length).
+  rewrite view_skip10 in Hf by apply pre10_length.
+  pose proof (C08_tag_length_proof _ _ _ _ _ Ht) as Hl. fold (hlen hm) in Hl.
+  rewrite (hmac_model_is_spec hbuf hm key r Hh Hhm Hk) in Ht. injection Ht as Ht.
+  rewrite Ht. rewrite <- Hf, Hl. pose proof (hlen_bounds hm) as Hb.
+  rewrite firstn_firstn, Nat.min_l by lia.
+  rewrite firstn_app_ge by (rewrite zeros_length; lia).
+  apply firstn_zeros. lia.
+Qed.
+
+Lemma patch_length_in (l w : list N) off :
+  (off + length w <= length l)%nat -> length (patch l off w) = length l.
+Proof.
+  intro H. unfold patch. replace (off - length l)%nat with 0%nat by lia.
+  change (zeros 0) with (@nil N). rewrite app_nil_r.
+  rewrite !app_length, firstn_length, skipn_length. lia.
+Qed.
+
+Lemma C13_interrupted_encryption_never_verifies_proof : forall c hbuf T P key seed cm hm ws F k,
+  enc_params c hbuf T P key seed cm hm ->
+  enc_writes c hbuf T P key cm hm seed = Ok ws ->
+  enc c hbuf T P key cm hm seed = Ok F ->
+  (k <= total_written ws)%nat ->
+  ver hbuf (crash_state ws k) key = Ok true ->
+  crash_state ws k = F \/
+  ((k <= length F)%nat /\ hmac_spec (hash_spec hm) key (skipn 48 (crash_state ws k)) = zeros (hlen hm)).
+Proof.
+  intros c hbuf T P key seed cm hm ws F k EP Hws HF Hk Hver.
+  destruct EP as [_ Hh _ _ [Hkey _] _ _ Hhm _ _ _].
+  destruct (enc_shape _ _ _ _ _ _ _ _ _ Hh Hhm Hkey HF) as [rest [tag [Htag [Hl [Hws' [-> _]]]]]].
+  assert (Ews : ws = [(0%nat, pre10 cm hm ++ zeros 38 ++ rest); (10%nat, tag)]) by congruence.
+  subst ws. clear Hws.
+  pose proof (hlen_bounds hm) as Hb.
+  set (stream := pre10 cm hm ++ zeros 38 ++ rest) in *.
+  assert (Hls : length stream = (48 + length rest)%nat)
+    by (apply view_length; [apply pre10_length|apply zeros_length]).
+  assert (HlF : length (pre10 cm hm ++ tag ++ zeros (38 - hlen hm) ++ rest) = (48 + length rest)%nat).
+  { rewrite !app_length, pre10_length, zeros_length, Hl. lia. }
+  apply ver_true_iff in Hver.
+  unfold total_written in Hk. cbn [fold_left snd Nat.add] in Hk.
+  unfold crash_state in *.
+  destruct (Nat.leb_spec k (length stream)) as [Hle|Hgt].
+  - right. split; [lia|].
+    assert (H74 : (74 <= k)%nat).
+    { apply verify_ok0 in Hver. destruct Hver as [H _]. rewrite firstn_length in H. lia. }
+    apply (prefix_state_verifies hbuf key cm hm rest k Hh Hhm Hkey); [lia|exact Hver].
+  - left. set (j := (k - length stream)%nat) in *.
+    assert (Hj : (j <= length tag)%nat) by lia.
+    assert (Hlj : length (firstn j tag) = j) by (apply firstn_length_le; exact Hj).
+    unfold stream in *. rewrite patch_layout in * by (try apply pre10_length; lia).
+    rewrite Hlj in *.
+    apply verify_ok0 in Hver. destruct Hver as [_ [_ [_ [_ [t [Ht Hf]]]]]].
+    rewrite view_nth9 in Ht.
+    assert (Hfld : length (firstn j tag ++ zeros (38 - j)) = 38%nat)
+      by (rewrite app_length, Hlj, zeros_length; lia).
+    rewrite (app_assoc (firstn j tag)) in Ht, Hf.
+    rewrite view_skip48 in Ht by (try apply pre10_length; exact Hfld).
+    rewrite view_skip10 in Hf by apply pre10_length.
+    rewrite (hmac_model_is_spec hbuf hm key rest Hh Hhm Hkey) in Ht. injection Ht as Ht.
+    rewrite <- Htag in Ht. subst t. rewrite Hl in Hf.
+    rewrite firstn_firstn, Nat.min_l in Hf by lia.
+    rewrite <- app_assoc in Hf.
+    rewrite firstn_app, Hlj, (firstn_all2 (firstn j tag)) in Hf by lia.
+    rewrite firstn_app_ge in Hf by (rewrite zeros_length; lia).
+    rewrite firstn_zeros in Hf by lia.
+    (* tag = firstn j tag ++ zeros (hlen - j) *)
+    f_equal. rewrite <- Hf at 2. rewrite <- !app_assoc. f_equal.
+    rewrite app_assoc. f_equal. rewrite <- zeros_app. f_equal. lia.
+Qed.
+
+Definition wit_ws : list (nat * list N) :=
+  match enc_writes 16 1 1 wit_P wit_key 1 1 wit_seed with Ok ws => ws | _ => [] end.
+Lemma wit_ws_eq : enc_writes 16 1 1 wit_P wit_key 1 1 wit_seed = Ok wit_ws.
+Proof. vm_compute. reflexivity. Qed.
+Example C13_interrupted_nonvacuous :
+  enc_params 16 1 1 wit_P wit_key wit_seed 1 1 /\
+  enc_writes 16 1 1 wit_P wit_key 1 1 wit_seed = Ok wit_ws /\
+  enc 16 1 1 wit_P wit_key 1 1 wit_seed = Ok wit05_F /\
+  (total_written wit_ws <= total_written wit_ws)%nat /\
+  ver 1 (crash_state wit_ws (total_written wit_ws)) wit_key = Ok true.
+Proof.
+  split; [exact wit05_ep|]. split; [exact wit_ws_eq|]. split; [exact wit05_enc|]. split; [apply le_n|].
+  vm_compute. reflexivity.
+Qed.
+
+Lemma short_never_verifies hbuf S key : (length S < 74)%nat -> ver hbuf S key = Ok false.
+Proof.
+  intro H. unfold ver.
+  destruct (C11_structural_rejections_proof hbuf S key) as [H1 [H2 _]].
+  destruct (Nat.lt_ge_cases (length S) 8) as [Hlt|Hge].
+  - rewrite (H1 Hlt). reflexivity.
+  - destruct (H2 (conj Hge H)) as [-> | ->]; reflexivity.
+Qed.
+
+Lemma C13_complete_and_short_states_proof : forall c hbuf T P key seed cm hm ws F,
+  enc_params c hbuf T P key seed cm hm ->
+  enc_writes c hbuf T P key cm hm seed = Ok ws ->
+  enc c hbuf T P key cm hm seed = Ok F ->
+  crash_state ws (total_written ws) = F /\
+  (forall k, (k < 74)%nat -> ver hbuf (crash_state ws k) key = Ok false).
+Proof.
+  intros c hbuf T P key seed cm hm ws F EP Hws HF.
+  destruct EP as [_ Hh _ _ [Hkey _] _ _ Hhm _ _ _].
+  destruct (enc_shape _ _ _ _ _ _ _ _ _ Hh Hhm Hkey HF) as [rest [tag [Htag [Hl [Hws' [-> _]]]]]].
+  assert (Ews : ws = [(0%nat, pre10 cm hm ++ zeros 38 ++ rest); (10%nat, tag)]) by congruence.
+  subst ws. clear Hws.
+  pose proof (hlen_bounds hm) as Hb.
+  set (stream := pre10 cm hm ++ zeros 38 ++ rest) in *.
+  assert (Hls : length stream = (48 + length rest)%nat)
+    by (apply view_length; [apply pre10_length|apply zeros_length]).
+  unfold total_written. cbn [fold_left snd Nat.add]. unfold crash_state. split.
+  - destruct (Nat.leb_spec (length stream + length tag) (length stream)) as [Hle|Hgt]; [lia|].
+    replace (length stream + length tag - length stream)%nat with (length tag) by lia.
+    rewrite firstn_all. unfold stream.
+    rewrite patch_layout by (try apply pre10_length; lia). rewrite Hl. reflexivity.
+  - intros k Hk. apply short_never_verifies.
+    destruct (Nat.leb_spec k (length stream)) as [Hle|Hgt].
+    + rewrite firstn_length. lia.
+    + rewrite patch_length_in; [lia|]. rewrite firstn_length. lia.
+Qed.
+
+Example C13_complete_nonvacuous :
+  enc_params 16 1 1 wit_P wit_key wit_seed 1 1 /\
+  enc_writes 16 1 1 wit_P wit_key 1 1 wit_seed = Ok wit_ws /\
+  enc 16 1 1 wit_P wit_key 1 1 wit_seed = Ok wit05_F.
+Proof. split; [exact wit05_ep|]. split; [exact wit_ws_eq|exact wit05_enc]. Qed.
+
+Lemma C13_tag_field_zero_until_the_end_proof : forall c hbuf T P key seed cm hm ws F k,
+  enc_params c hbuf T P key seed cm hm ->
+  enc_writes c hbuf T P key cm hm seed = Ok ws ->
+  enc c hbuf T P key cm hm seed = Ok F ->
+  (74 <= k <= length F)%nat ->
+  firstn (hlen hm) (skipn 10 (crash_state ws k)) = zeros (hlen hm).
+Proof.
+  intros c hbuf T P key seed cm hm ws F k EP Hws HF Hk.
+  destruct EP as [_ Hh _ _ [Hkey _] _ _ Hhm _ _ _].
+  destruct (enc_shape _ _ _ _ _ _ _ _ _ Hh Hhm Hkey HF) as [rest [tag [Htag [Hl [Hws' [-> _]]]]]].
+  assert (Ews : ws = [(0%nat, pre10 cm hm ++ zeros 38 ++ rest); (10%nat, tag)]) by congruence.
+  subst ws. clear Hws.
+  pose proof (hlen_bounds hm) as Hb.
+  assert (HlF : length (pre10 cm hm ++ tag ++ zeros (38 - hlen hm) ++ rest) = (48 + length rest)%nat).
+  { rewrite !app_length, pre10_length, zeros_length, Hl. lia. }
+  rewrite HlF in Hk.
+  unfold crash_state.
+  rewrite (view_length (pre10 cm hm) (zeros 38) rest (pre10_length cm hm) (zeros_length 38)).
+  destruct (Nat.leb_spec k (48 + length rest)) as [Hle|Hgt]; [|lia].
+  rewrite firstn_layout by (try apply pre10_length; lia).
+  rewrite view_skip10 by apply pre10_length.
+  rewrite firstn_app_ge by (rewrite zeros_length; lia).
+  apply firstn_zeros. lia.
+Qed.
+
+Example C13_tag_field_nonvacuous :
+  enc_params 16 1 1 wit_P wit_key wit_seed 1 1 /\
+  enc_writes 16 1 1 wit_P wit_key 1 1 wit_seed = Ok wit_ws /\
+  enc 16 1 1 wit_P wit_key 1 1 wit_seed = Ok wit05_F /\ (74 <= 100 <= length wit05_F)%nat.
+Proof.
+  split; [exact wit05_ep|]. split; [exact wit_ws_eq|]. split; [exact wit05_enc|]. vm_compute. lia.
+Qed.
+
+(* ------------------------------------------------------------------------------------ *)
+(** * 6. C06: acceptance under another key is a tag collision                              *)
+(* ------------------------------------------------------------------------------------ *)
+
+Lemma firstn_app_exact2 {A} (x y : list A) : firstn (length x) (x ++ y) = x.
+Proof. apply firstn_app_exact. reflexivity. Qed.
+
+Lemma C06_wrong_key_acceptance_is_a_tag_collision_proof : forall c hbuf T P key seed cm hm F key',
+  enc_params c hbuf T P key seed cm hm ->
+  enc c hbuf T P key cm hm seed = Ok F ->
+  block16 key' ->
+  ver hbuf F key' = Ok true ->
+  hmac_spec (hash_spec hm) key' (skipn 48 F) = hmac_spec (hash_spec hm) key (skipn 48 F).
+Proof.
+  intros c hbuf T P key seed cm hm F key' EP HF [Hkey' _] Hver.
+  destruct EP as [_ Hh _ _ [Hkey _] _ _ Hhm _ _ _].
+  destruct (enc_shape _ _ _ _ _ _ _ _ _ Hh Hhm Hkey HF) as [rest [tag [Htag [Hl [_ [-> _]]]]]].
+  pose proof (hlen_bounds hm) as Hb.
+  apply ver_true_iff, verify_ok0 in Hver. destruct Hver as [_ [_ [_ [_ [t [Ht Hf]]]]]].
+  rewrite view_nth9 in Ht.
+  assert (Hfld : length (tag ++ zeros (38 - hlen hm)) = 38%nat)
+    by (rewrite app_length, Hl, zeros_length; lia).
+  rewrite (app_assoc tag) in *.
+  rewrite view_skip48 in * by (try apply pre10_length; exact Hfld).
+  rewrite view_skip10 in Hf by apply pre10_length.
+  pose proof (C08_tag_length_proof _ _ _ _ _ Ht) as Hlt. fold (hlen hm) in Hlt.
+  rewrite (hmac_model_is_spec hbuf hm key' rest Hh Hhm Hkey') in Ht. injection Ht as Ht.
+  rewrite Ht, <- Htag, <- Hf, Hlt, <- Hl.
+  rewrite firstn_firstn, Nat.min_l by lia.
+  rewrite <- !app_assoc. apply firstn_app_exact2.
+Qed.
+
+(* the hypotheses hold for key' = key; an instance with key' <> key would be an HMAC collision *)
+Example C06_wrong_key_nonvacuous :
+  enc_params 16 1 1 wit_P wit_key wit_seed 1 1 /\
+  enc 16 1 1 wit_P wit_key 1 1 wit_seed = Ok wit05_F /\ block16 wit_key /\
+  ver 1 wit05_F wit_key = Ok true.
+Proof.
+  split; [exact wit05_ep|]. split; [exact wit05_enc|]. split; [exact (ep_key _ _ _ _ _ _ _ _ wit05_ep)|].
+  vm_compute. reflexivity.
+Qed.
+
+(* ------------------------------------------------------------------------------------ *)
+(** * 7. C18: the stored IV slots                                                          *)
+(* ------------------------------------------------------------------------------------ *)
+
+Lemma sha1_model_spec m : getStringHash alg_sha1 m = sha1 m.
+Proof. exact (string_std_gen 0 alg_sha1 m eq_refl). Qed.
+Lemma sha1_length m : length (sha1 m) = 20%nat.
+Proof. rewrite <- sha1_model_spec. exact (proj1 (getStringHash_length 0 alg_sha1 m eq_refl)). Qed.
+
+Lemma iv_chain_from_spec n : forall prev, iv_chain_from prev n = spec_iv_chain_from prev n.
+Proof.
+  induction n as [|n IH]; intro prev; [reflexivity|].
+  cbn [iv_chain_from spec_iv_chain_from]. rewrite sha1_model_spec, IH. reflexivity.
+Qed.
+Lemma iv_chain_spec seed T : (1 <= T)%nat -> iv_chain seed T = spec_ivs seed T.
+Proof.
+  intro H. destruct T as [|n]; [lia|]. unfold iv_chain, spec_ivs.
+  cbn [spec_iv_chain_from]. rewrite sha1_model_spec, iv_chain_from_spec. reflexivity.
+Qed.
+Lemma spec_ivs_length T : forall seed, length (spec_iv_chain_from seed T) = (20 * T)%nat.
+Proof.
+  induction T as [|n IH]; intro seed; [reflexivity|].
+  cbn [spec_iv_chain_from]. rewrite app_length, sha1_length, IH. lia.
+Qed.
+
+Lemma C18_stored_ivs_are_the_sha1_chain_proof : forall c hbuf T P key seed cm hm F,
+  enc_params c hbuf T P key seed cm hm ->
+  enc c hbuf T P key cm hm seed = Ok F ->
+  firstn (20 * T) (skipn 48 F) = spec_ivs seed T /\
+  firstn 20 (skipn 48 F) = sha1 seed.
+Proof.
+  intros c hbuf T P key seed cm hm F EP HF.
+  destruct EP as [_ Hh HT _ [Hkey _] _ _ Hhm _ _ _].
+  destruct (enc_shape _ _ _ _ _ _ _ _ _ Hh Hhm Hkey HF) as [rest [tag [Htag [Hl [_ [-> [body ->]]]]]]].
+  pose proof (hlen_bounds hm) as Hb.
+  assert (Hfld : length (tag ++ zeros (38 - hlen hm)) = 38%nat)
+    by (rewrite app_length, Hl, zeros_length; lia).
+  rewrite (app_assoc tag).
+  rewrite view_skip48 by (try apply pre10_length; exact Hfld).
+  rewrite iv_chain_spec by exact HT.
+  assert (Hli : length (spec_ivs seed T) = (20 * T)%nat) by apply spec_ivs_length.
+  rewrite (firstn_all2 (spec_ivs seed T)) by lia.
+  split.
+  - apply firstn_app_exact. exact Hli.
+  - destruct T as [|n]; [lia|]. unfold spec_ivs. cbn [spec_iv_chain_from].
+    rewrite <- app_assoc. apply firstn_app_exact. apply sha1_length.
+Qed.
+
+Example C18_stored_ivs_nonvacuous :
+  enc_params 16 1 1 wit_P wit_key wit_seed 1 1 /\ enc 16 1 1 wit_P wit_key 1 1 wit_seed = Ok wit05_F.
+Proof. split; [exact wit05_ep|exact wit05_enc]. Qed.
+
+(* ------------------------------------------------------------------------------------ *)
+(** * 8. What decryption reads of a file                                                   *)
+(* ------------------------------------------------------------------------------------ *)
+
+Lemma dec_congr c hbuf T F F' key :
+  verify hbuf F key = Ok 0 -> verify hbuf F' key = Ok 0 ->
+  length F = length F' -> nth 8 F 0 = nth 8 F' 0 -> skipn 48 F = skipn 48 F' ->
+  dec c hbuf T F key = dec c hbuf T F' key.
+Proof.
+  intros Hv Hv' Hl H8 H48. unfold dec. rewrite Hv, Hv', Hl, H8, iv_mark_eq, text_mark_eq.
+  rewrite (Nat.add_comm 48), !skipn_add, H48. reflexivity.
+Qed.
+
+Lemma enc_functional c hbuf T P key seed cm hm F :
+  enc_params c hbuf T P key seed cm hm -> enc c hbuf T P key cm hm seed = Ok F ->
+  dec c hbuf T F key = Ok P /\ ver hbuf F key = Ok true.
+Proof.
+  intros EP HF. destruct (C01_roundtrip_proof _ _ _ _ _ _ _ _ EP) as [F0 [HF0 H]].
+  assert (F0 = F) by congruence. subst F0. exact H.
+Qed.
+
+Lemma nth_skipn0 a : forall (l : list N) i, nth i (skipn a l) 0 = nth (a + i) l 0.
+Proof.
+  induction a as [|a IH]; intros l i; [reflexivity|].
+  destruct l as [|x l]; cbn [skipn Nat.add nth]; [destruct i; reflexivity|apply IH].
+Qed.
+Lemma skipn_ext a (l l' : list N) :
+  length l = length l' -> (forall i, (a <= i)%nat -> nth i l 0 = nth i l' 0) -> skipn a l = skipn a l'.
+Proof.
+  intros Hl H. apply (nth_ext _ _ 0 0).
+  - rewrite !skipn_length, Hl. reflexivity.
+  - intros i _. rewrite !nth_skipn0. apply H. lia.
+Qed.
+Lemma firstn_ext h (l l' : list N) :
+  length l = length l' -> (forall i, (i < h)%nat -> nth i l 0 = nth i l' 0) -> firstn h l = firstn h l'.
+Proof.
+  intros Hl H. apply (nth_ext _ _ 0 0).
+  - rewrite !firstn_length, Hl. reflexivity.
+  - intros i Hi. rewrite firstn_length in Hi. rewrite !nth_firstn_lt by lia. apply H. lia.
+Qed.
+Lemma seg_ext a h (l l' : list N) :
+  length l = length l' -> (forall i, (a <= i < a + h)%nat -> nth i l 0 = nth i l' 0) ->
+  firstn h (skipn a l) = firstn h (skipn a l').
+Proof.
+  intros Hl H. apply firstn_ext.
+  - rewrite !skipn_length, Hl. reflexivity.
+  - intros i Hi. rewrite !nth_skipn0. apply H. lia.
+Qed.
+
+(* ------------------------------------------------------------------------------------ *)
+(** * 9. C05                                                                               *)
+(* ------------------------------------------------------------------------------------ *)
+
+Lemma C05_tampering_reduces_to_forgery_proof : forall c hbuf T P key seed cm hm F F' P',
+  enc_params c hbuf T P key seed cm hm ->
+  enc c hbuf T P key cm hm seed = Ok F ->
+  dec c hbuf T F' key = Ok P' -> P' <> P ->
+  Forgery key F F' \/ nth 8 F' 0 <> nth 8 F 0.
+Proof.
+  intros c hbuf T P key seed cm hm F F' P' EP HF Hdec Hne.
+  destruct (enc_functional _ _ _ _ _ _ _ _ _ EP HF) as [HdecF HverF].
+  destruct EP as [_ Hh _ _ [Hkey _] _ _ Hhm _ _ _].
+  pose proof (C05_success_requires_valid_tag_proof _ _ _ _ _ _ Hdec) as Hv'.
+  pose proof (C05_success_requires_valid_tag_proof _ _ _ _ _ _ HdecF) as Hv.
+  destruct (N.eq_dec (nth 8 F' 0) (nth 8 F 0)) as [E8|N8]; [|right; exact N8].
+  left.
+  destruct (proj1 (verify_ok0 _ _ _) Hv') as [H74' [_ [_ [Hhm' [t [Ht Hf]]]]]].
+  destruct (proj1 (verify_ok0 _ _ _) Hv) as [H74 _].
+  pose proof (C08_tag_length_proof _ _ _ _ _ Ht) as Hlt. fold (hlen (nth 9 F' 0)) in Hlt.
+  rewrite (hmac_model_is_spec hbuf _ key _ Hh Hhm' Hkey) in Ht. injection Ht as Ht.
+  pose proof (hlen_bounds (nth 9 F' 0)) as Hb.
+  rewrite Hlt, firstn_firstn, Nat.min_l in Hf by lia.
+  unfold Forgery. split; [|split; [exact Hhm'|rewrite Hf; symmetry; exact Ht]].
+  unfold authenticated. intro EA.
+  pose proof (f_equal snd EA) as E48. cbn [snd] in E48.
+  apply Hne.
+  assert (Hl : length F' = length F).
+  { pose proof (f_equal (@length N) E48) as HL. rewrite !skipn_length in HL. lia. }
+  assert (Ed : dec c hbuf T F' key = dec c hbuf T F key) by (apply dec_congr; assumption).
+  congruence.
+Qed.
+
+(* the computed mode-byte counterexample is an instance (it lands in the right disjunct) *)
+Example C05_tampering_nonvacuous :
+  enc_params 16 1 1 wit_P wit_key wit_seed 1 1 /\
+  enc 16 1 1 wit_P wit_key 1 1 wit_seed = Ok wit05_F /\
+  dec 16 1 1 wit05_F' wit_key = Ok wit05_P' /\ wit05_P' <> wit_P.
+Proof. split; [exact wit05_ep|]. split; [exact wit05_enc|]. split; [exact wit05_dec|exact wit05_ne]. Qed.
+
+Lemma C05_padding_bytes_carry_no_information_proof : forall c hbuf T P key seed cm hm F F',
+  enc_params c hbuf T P key seed cm hm ->
+  enc c hbuf T P key cm hm seed = Ok F ->
+  same_outside (10 + hlen hm) 48 F F' ->
+  dec c hbuf T F' key = Ok P /\ ver hbuf F' key = Ok true.
+Proof.
+  intros c hbuf T P key seed cm hm F F' EP HF [Hl Hsame].
+  destruct (enc_functional _ _ _ _ _ _ _ _ _ EP HF) as [HdecF HverF].
+  destruct EP as [_ Hh _ _ [Hkey _] _ _ Hhm _ _ _].
+  pose proof (C05_success_requires_valid_tag_proof _ _ _ _ _ _ HdecF) as Hv.
+  assert (H9F : nth 9 F 0 = hm).
+  { destruct (enc_shape _ _ _ _ _ _ _ _ _ Hh Hhm Hkey HF) as [rest [tag [_ [_ [_ [-> _]]]]]].
+    apply view_nth9. }
+  pose proof (hlen_bounds hm) as Hb.
+  assert (E8 : nth 8 F 0 = nth 8 F' 0) by (apply Hsame; lia).
+  assert (E9 : nth 9 F 0 = nth 9 F' 0) by (apply Hsame; lia).
+  assert (E48 : skipn 48 F = skipn 48 F') by (apply skipn_ext; [exact Hl|intros i Hi; apply Hsame; lia]).
+  assert (Em : firstn 8 F = firstn 8 F') by (apply firstn_ext; [exact Hl|intros i Hi; apply Hsame; lia]).
+  assert (Et : firstn (hlen hm) (skipn 10 F) = firstn (hlen hm) (skipn 10 F'))
+    by (apply seg_ext; [exact Hl|intros i Hi; apply Hsame; lia]).
+  assert (Hv' : verify hbuf F' key = Ok 0).
+  { destruct (proj1 (verify_ok0 _ _ _) Hv) as [H74 [Hmg [Hcm [Hhm' [t [Ht Hf]]]]]].
+    apply verify_ok0. rewrite <- Hl, <- Em, <- E8, <- E9, <- E48.
+    repeat (split; [assumption|]). exists t. split; [exact Ht|].
+    pose proof (C08_tag_length_proof _ _ _ _ _ Ht) as Hlt. rewrite H9F in Hlt. fold (hlen hm) in Hlt.
+    rewrite Hlt in *. rewrite firstn_firstn, Nat.min_l in * by lia.
+    rewrite <- Et. exact Hf. }
+  split; [|apply ver_true_iff; exact Hv'].
+  rewrite <- HdecF. symmetry. apply dec_congr; assumption.
+Qed.
+
+(* byte 30 (inside the zero fill after the 16-byte MD5 tag) set to 7 *)
+Definition wit05_Fpad : list N := firstn 30 wit05_F ++ [7] ++ skipn 31 wit05_F.
+Example C05_padding_nonvacuous :
+  enc_params 16 1 1 wit_P wit_key wit_seed 1 1 /\
+  enc 16 1 1 wit_P wit_key 1 1 wit_seed = Ok wit05_F /\
+  same_outside (10 + hlen 1) 48 wit05_F wit05_Fpad /\ wit05_Fpad <> wit05_F.
+Proof.
+  split; [exact wit05_ep|]. split; [exact wit05_enc|]. split.
+  - split; [vm_compute; reflexivity|]. intros i Hi.
+    apply (nth_agree_sweep wit05_F wit05_Fpad 228 30); try (vm_compute; reflexivity).
+    change (hlen 1) with 16%nat in Hi. lia.
+  - intro H. apply (f_equal (fun l => nth 30 l 0)) in H. vm_compute in H. discriminate H.
+Qed.
+
+(* ------------------------------------------------------------------------------------ *)
+(** * 10. C12 on the domain                                                                *)
+(* ------------------------------------------------------------------------------------ *)
+
+Lemma C12_verdicts_coincide_on_domain_proof : forall c hbuf T F key,
+  (1 <= hbuf)%nat -> N.of_nat (length F) < 2 ^ 56 ->
+  (verify hbuf F key <> Ok 0 \/
+   exists P seed cm hm, enc_params c hbuf T P key seed cm hm /\ enc c hbuf T P key cm hm seed = Ok F) ->
+  (ver hbuf F key = Ok true <-> exists out, dec c hbuf T F key = Ok out) /\
+  (ver hbuf F key = Ok true \/ ver hbuf F key = Ok false).
+Proof.
+  intros c hbuf T F key Hh Hsz [Hne|[P [seed [cm [hm [EP HF]]]]]].
+  - destruct (C11_unauthentic_input_fails_cleanly_proof c hbuf T F key Hh Hsz Hne) as [code [_ [Hd Hv]]].
+    rewrite Hd, Hv. split; [|right; reflexivity].
+    split; [discriminate|]. intros [out H]. discriminate H.
+  - destruct (enc_functional _ _ _ _ _ _ _ _ _ EP HF) as [Hd Hv].
+    rewrite Hd, Hv. split; [|left; reflexivity].
+    split; [intros _; exists P; reflexivity|reflexivity].
+Qed.
+
+Example C12_verdicts_nonvacuous :
+  (1 <= 1)%nat /\ N.of_nat (length [1; 2; 3]) < 2 ^ 56 /\ verify 1 [1; 2; 3] wit_key <> Ok 0 /\
+  N.of_nat (length wit05_F) < 2 ^ 56 /\
+  exists P seed cm hm, enc_params 16 1 1 P wit_key seed cm hm /\ enc 16 1 1 P wit_key cm hm seed = Ok wit05_F.
+Proof.
+  split; [apply le_n|]. split; [reflexivity|]. split; [vm_compute; discriminate|].
+  split; [vm_compute; reflexivity|].
+  exists wit_P, wit_seed, 1, 1. split; [exact wit05_ep|exact wit05_enc].
+Qed.
+
+(* ------------------------------------------------------------------------------------ *)
+(** * 11. C11: output bounded by the body                                                  *)
+(* ------------------------------------------------------------------------------------ *)
+
+Definition bound (c : nat) (l : load) : nat := if ld_final l then (16 * ld_total l)%nat else sum c.
+
+Lemma Ok_inj {A} (a b : A) : Ok a = Ok b -> a = b.
+Proof. intro H. congruence. Qed.
+
+Lemma list_sum_cons x l : list_sum (x :: l) = (x + list_sum l)%nat.
+Proof. reflexivity. Qed.
+
+Lemma export_dec_len c l data bytes :
+  export c false l data = Ok bytes -> (length bytes <= bound c l)%nat.
+Proof.
+  unfold export, bound. destruct (ld_final l).
+  - destruct (ld_total l) as [|n]; [discriminate|].
+    destruct (_ <? _)%nat; [discriminate|]. intro H. apply Ok_inj in H. rewrite <- H, firstn_length. lia.
+  - intro H. apply Ok_inj in H. rewrite <- H, firstn_length. lia.
+Qed.
+
+Lemma pipe_chunks_len E D kind T c : forall ls ivs j out,
+  pipe_chunks E D kind T c false ivs j ls = Ok out ->
+  (length out <= list_sum (map (bound c) ls))%nat.
+Proof.
+  induction ls as [|l r IH]; intros ivs j out H.
+  - cbn [pipe_chunks] in H. apply Ok_inj in H. subst out. cbn. lia.
+  - cbn [pipe_chunks] in H.
+    destruct (ld_final l && (ld_total l =? 0)%nat); [discriminate H|].
+    destruct (run E D kind (nth (j mod T) ivs []) (blocks16_of (ld_data l))) as [iv' o].
+    destruct (export c false l (concat o)) as [bytes| | |] eqn:He; try discriminate H.
+    destruct (pipe_chunks E D kind T c false (set_nth (j mod T) iv' ivs) (S j) r) as [rest| | |] eqn:Hp;
+      try discriminate H.
+    apply Ok_inj in H. subst out. rewrite app_length. cbn [map]; rewrite list_sum_cons.
+    apply export_dec_len in He. apply IH in Hp. lia.
+Qed.
+
+Lemma loads_dec_bound c : forall fuel rest,
+  (list_sum (map (bound c) (loads (load_dec c) fuel rest)) <= length rest)%nat.
+Proof.
+  induction fuel as [|f IH]; intro rest; [cbn; lia|].
+  cbn [loads]. unfold load_dec at 1. cbv zeta.
+  set (n := length (firstn (sum c) rest)).
+  assert (Hn : (n <= length rest)%nat) by (unfold n; rewrite firstn_length; lia).
+  cbn [ld_final].
+  destruct ((n <? sum c)%nat || match skipn (sum c) rest with [] => true | _ => false end) eqn:Hro.
+  - cbn [map]; rewrite list_sum_cons. unfold bound. cbn [ld_final ld_total].
+    change (list_sum []) with 0%nat. pose proof (Nat.mul_div_le n 16). lia.
+  - cbn [map]; rewrite list_sum_cons. unfold bound at 1. cbn [ld_final ld_total].
+    apply orb_false_iff in Hro. destruct Hro as [Hlt _]. apply Nat.ltb_ge in Hlt.
+    specialize (IH (skipn (sum c) rest)). rewrite skipn_length in IH.
+    unfold n in Hlt. rewrite firstn_length in Hlt. lia.
+Qed.
+
+Lemma C11_output_bounded_by_body_proof : forall c hbuf T F key out,
+  (1 <= c)%nat -> (1 <= T)%nat ->
+  dec c hbuf T F key = Ok out -> (length out <= length F - text_mark T)%nat.
+Proof.
+  intros c hbuf T F key out _ _ H. unfold dec in H.
+  destruct (verify hbuf F key) as [code| | |]; try discriminate H.
+  destruct code as [|p]; [|discriminate H].
+  destruct (length F <? text_mark T)%nat; [discriminate H|].
+  destruct (create false (nth 8 F 0)) as [kind|]; [|discriminate H].
+  unfold pipe_seq, loads_of in H. apply pipe_chunks_len in H.
+  rewrite <- skipn_length. etransitivity; [exact H|apply loads_dec_bound].
+Qed.
+
+Example C11_output_bounded_nonvacuous :
+  (1 <= 16)%nat /\ (1 <= 1)%nat /\ dec 16 1 1 wit05_F' wit_key = Ok wit05_P'.
+Proof. split; [lia|]. split; [apply le_n|exact wit05_dec]. Qed.
